@@ -19,7 +19,7 @@ CHECKS = {
          "Every Search call is compared, as a multiset of (index, segment) callbacks, with a brute-force scan of the index-free series using the harness' own box test; early stop is checked at four stop positions; sizes cross every item-width and node-split boundary up to 70000 points; predicates and Move()d shapes are compared across index configurations.",
          "Trusted: NumSegments/SegmentAt of the index-free series (checked separately by C18); index bytes are never decoded.", "6 C04"),
  "C05": ("totality monitors: recover()-based panic monitor, step-budget hook in the Line.ContainsLine walk, no-progress watchdog with isolated confirmation, Parse object-xor-error, journal for process-fatal events (thorough tier under -race/checkptr)",
-         "All 22 operation groups (every method of Object, Spatial, Collection, geometry.Geometry, Series) are executed on ordered pairs of degenerate constructor objects, random trees, adversarial line pairs and parsed objects; Parse is driven with grammar documents, every structural mutant class, byte corruptions, every-offset truncations and nesting up to 5000/20000 under 17 option combinations. A panic, an exceeded step budget, a confirmed hang, a crash or a (nil,nil)/(obj,err) result is a violation.",
+         "All 22 operation groups (every method of Object, Spatial, Collection, geometry.Geometry, Series) are executed on ordered pairs of degenerate constructor objects, random trees, adversarial line pairs and parsed objects; Parse is driven with grammar documents, every structural mutant class, byte corruptions, every-offset truncations and nesting up to 5000/10000 under 17 option combinations. A panic, an exceeded step budget, a confirmed hang, a crash or a (nil,nil)/(obj,err) result is a violation.",
          "'Never loops forever' is restated as bounded progress (step budget + 90 s no-progress watchdog); unbounded liveness is out of reach of any finite run.", "6 C05"),
  "C06": ("round-trip monitor: Parse/JSON/Parse fixpoint + differential comparison of the output with an independent reading of the input",
          "Each accepted grammar-generated text is serialised, reparsed and reserialised (byte equality, same Go kind, equal predicate answers against 14 probes) and the output is decoded by the reference reader and compared with the reference reading of the input: type, x/y bit for bit, z/m, child order, ordered foreign members, properties on Features. Known finding F10 (Circle objects) is matched narrowly.",
@@ -49,10 +49,10 @@ CHECKS = {
          "Every rectangle is checked for NaN, world bounds, full longitude range when the reference disc reaches a pole, and coverage within 1 cm of ~30 reference probes of the disc, for centres biased to poles/antimeridian and radii families including 'disc just reaches the pole +- nanometres'. Known finding F18 is matched with both bounds.",
          "Trusted: internal/sphere; only coverage is demanded, not tightness.", "6 C14"),
  "C15": ("reference-model and inverse-consistency monitor over great-circle primitives with singularity-directed sampling",
-         "Symmetry (bit-equal), zero on identical, range, agreement with the reference distance, destination range, distance-back and conditioned bearing-back, haversine round trip and strict monotonicity, NormalizeDistance idempotence, semicircle round trip and Object.Distance of point-like objects are checked on 40 M tuples (quick). Known finding F19 is matched with a magnitude bound.",
+         "Symmetry and zero on identical locations (within the stated tolerance), range, agreement with the reference distance, destination range, distance-back and conditioned bearing-back, haversine round trip and strict monotonicity, NormalizeDistance idempotence, semicircle round trip and Object.Distance of point-like objects are checked on 40 M tuples (quick). Known finding F19 is matched with a magnitude bound.",
          "Trusted: internal/sphere; near the antipode the haversine's own resolution is allowed for.", "6 C15"),
  "C16": ("Go race detector over barrier-released convoy/scatter rounds on fresh object pools + history monitor (every concurrent result equals the result of the same call run alone)",
-         "A -race build runs 64 rounds (quick) of 32 goroutines over a fresh pool of ~56 objects of all kinds: first every object is hit by all goroutines at once (its very first use is contended; partners come from an already used pool), then seeded mixed operations on hot receivers; GOMAXPROCS alternates 2/16. Any race report (deduplicated by outermost library frames) or any result differing from the sequential baseline is a violation. The monitor keeps per-goroutine logs merged after the join so that it does not synchronise what it watches.",
+         "A -race build runs 64 rounds (quick) of 32 goroutines (96 every fourth round) over a fresh pool of ~70 objects of all kinds (Z/M ordinates, foreign members, collections nested eight deep): first every object is hit by all goroutines at once (its very first use is contended; partners come from an already used pool), then seeded mixed operations on hot receivers; then goroutines parse documents concurrently; then 96 goroutines hold a child search open at the same time; GOMAXPROCS alternates 2/16. Any race report (deduplicated by outermost library frames) or any result differing from the sequential baseline is a violation. The monitor keeps per-goroutine logs merged after the join so that it does not synchronise what it watches.",
          "The race detector only sees accesses the workload performs; all exported methods of all kinds are executed.", "6 C16"),
  "C17": ("output monitor: JSON validity, structural decoding, append contract with aliasing sentinels over objects from every constructor and special floats",
          "Every object and nested object built through all public constructors (NaN/Inf/-0/extreme ordinates, hostile member strings) and through Parse is serialised four ways; outputs must agree, AppendJSON must append without touching the prefix (checked with spare capacity and an aliasing slice), the bytes must be valid JSON of the right type and nesting depth, ordinates must round-trip bit-exactly and non-finite ones must be null.",
